@@ -209,7 +209,7 @@ theorem ext_validateChildParentsAttrs (cas : List ChildParentsAttr) (tps : List 
     · exact mem_insert_of_mem _ _ _ hm
     · exact hm
 
-theorem ext_nestedNamePass (named : Bool) (pas : List ParentAttr) (x : TraitAttrCore × Kind) :
+theorem ext_nestedNamePass (named : Bool) (pas : List ParentAttr) (x : TraitAttrCore × Kind × TypeHint) :
     Ext (fun es => nestedNamePass named pas es x) := by
   intro es m hm
   simp only [nestedNamePass]
@@ -217,11 +217,11 @@ theorem ext_nestedNamePass (named : Bool) (pas : List ParentAttr) (x : TraitAttr
   · exact mem_foldl_of_mem _ _ _ _ (fun f es hm => mem_insert_of_mem _ _ _ hm) hm
   · exact hm
 
-theorem ext_validateParentAttrs (named : Bool) (pas : List ParentAttr) (byKind : List (TraitAttrCore × Kind)) :
-    Ext (validateParentAttrs named pas byKind) := by
+theorem ext_validateParentAttrs (named : Bool) (wa : List (TraitAttrCore × Kind × TypeHint)) (pas : List ParentAttr) (byKind : List (TraitAttrCore × Kind)) :
+    Ext (validateParentAttrs named wa pas byKind) := by
   intro es m hm
   unfold validateParentAttrs
-  have hm : m ∈ (byKind.filter fun (x, k) => !k.isFrom && x.quickReturn.isNone).foldl (nestedNamePass named pas) es :=
+  have hm : m ∈ (wa.filter fun x => !x.2.1.isFrom && x.1.quickReturn.isNone).foldl (nestedNamePass named pas) es :=
     mem_foldl_of_mem _ _ _ _ (fun x es hm => ext_nestedNamePass named pas x es m hm) hm
   refine mem_foldl_of_mem _ _ _ _ (fun pa es hm => ?_) hm
   simp only
